@@ -193,8 +193,8 @@ def plans(tier, seed):
     pal = seed % 3
     if tier == "quick":
         jobs = [({"np_d": 1, "cs_d": 1, "psets": [0, 1], "cs_sym": ["SX"]},
-                 [(lab, s) for _, lab, s in all_specs(3, 3, 1, pal)])]
-        bounds = {"shapes": "(n,m)<=(3,3)", "config_deviation": 1, "numpy_value_deviation": 1, "casadi_value_deviation": 1,
+                 [(lab, s) for _, lab, s in all_specs(3, 3, 1, pal)] + [(f"harness:{k}", s) for k, s in harness_specs(pal).items()])]
+        bounds = {"shapes": "(n,m)<=(3,3) + the harness list (incl. 12-segment links, ramps at merge nodes)", "config_deviation": 1, "numpy_value_deviation": 1, "casadi_value_deviation": 1,
                   "palette": pal, "param_sets": [0, 1]}
     else:
         a = [(lab, s) for _, lab, s in all_specs(3, 4, 1, pal)]
